@@ -4,6 +4,7 @@ import SqlcModel.Driver.C09
 import SqlcModel.Driver.C08
 import SqlcModel.Driver.C17
 import SqlcModel.Driver.C04
+import SqlcModel.Driver.C11
 open Lean Sqlc.Drv
 
 def dispatch (prop kind : String) (inp impl : Json) : Verdict :=
@@ -13,6 +14,7 @@ def dispatch (prop kind : String) (inp impl : Json) : Verdict :=
   | "C08" => c08 kind inp impl
   | "C17" => c17 kind inp impl
   | "C04" => c04 kind inp impl
+  | "C11" => c11 kind inp impl
   | _ => { compare := false, frag := "no-model" }
 
 partial def loop (prop : String) (h : IO.FS.Stream) (out : IO.FS.Stream) : IO Unit := do
